@@ -47,24 +47,23 @@ def check_callback(ctx, fn, role):
     cons = fn.name
     qparam = fn.args.args[0].arg
     calls = _traversal_calls(fn)
-    ok = len(calls) == 1 and len(calls[0].args) >= 2 and isinstance(calls[0].args[0], ast.Name) and calls[0].args[0].id == qparam
-    ctx.ob('C12.same-walker', f'{cons}:whole-statement', ok,
-           f'{cons} does not run exactly one query_traversal over its whole statement argument `{qparam}` '
-           f'({[norm(c) for c in calls]}): placeholders outside the traversed part are not {role}',
-           file=file, line=fn.lineno)
-    if not ok:
-        return
     ctx.count('callbacks')
     p1, p2, p3 = Obj('Parameter', value='?', alias=None), Obj('Parameter', value='?', alias=None), Obj('Parameter', value='?', alias=None)
     visits = [Obj('Select'), Obj('Identifier', parts=['a']), p1, Obj('BinaryOperation', op='=', args=[]), p2, Obj('Constant', value=5), Obj('Function', op='f'), p3]
     log = []
 
+    traversed = []
+
     def traverse(it, query, callback, **kw):
+        traversed.append(query)
+        if not (isinstance(query, Obj) and '_visits' in query.attrs):
+            return None
         for n in query.attrs['_visits']:
             r = callback(n, is_table=False, is_target=False, parent_query=None, callstack=[])
             log.append((n, r))
         return None
-    query = Obj('Select', _visits=visits)
+    query = Obj('Select', _visits=visits, where=Obj('BinaryOperation', op='=', args=[], _visits=[p2]), targets=[p1], from_table=Obj('Identifier', parts=['t']),
+                group_by=None, having=None, order_by=None, limit=None, offset=None, cte=None)
     stubs = {'query_traversal': traverse, 'utils.query_traversal': traverse, 'copy.deepcopy': lambda it, x: list(x) if isinstance(x, list) else x,
              'deepcopy': lambda it, x: list(x) if isinstance(x, list) else x, 'copy.copy': lambda it, x: list(x) if isinstance(x, list) else x,
              'ast.Constant': lambda it, v, *a, **k: Obj('Constant', value=v), 'Constant': lambda it, v, *a, **k: Obj('Constant', value=v)}
@@ -76,6 +75,11 @@ def check_callback(ctx, fn, role):
     except Raised as r:
         ctx.ob('C12.same-walker', f'{cons}:runs', False, f'{cons} raises {r.exc_name} on a statement with three placeholders', file=file, line=fn.lineno)
         return
+    ctx.ob('C12.same-walker', f'{cons}:whole-statement', len(traversed) == 1 and traversed[0] is query,
+           f'{cons} does not run exactly one query_traversal over its whole statement argument `{qparam}` (traversed: {[repr(t)[:30] for t in traversed]}): '
+           f'placeholders outside the traversed part are not {role}', file=file, line=fn.lineno)
+    if not (len(traversed) == 1 and traversed[0] is query):
+        return
     params = [p1, p2, p3]
     pruned_other = [(n, r) for n, r in log if r is not None and not any(n is p for p in params)]
     ctx.ob('C12.same-walker', f'{cons}:prunes-only-at-Parameter', not pruned_other,
@@ -83,7 +87,7 @@ def check_callback(ctx, fn, role):
            f'(and replaces the node), so placeholders below that node are not {role}', file=file, line=fn.lineno)
     # ... and syntactically: every return of a value in the callback is dominated by the isinstance(node, Parameter) test (whatever the node looks like)
     from ..cfg import dominating_conditions
-    cbname = calls[0].args[1].id if isinstance(calls[0].args[1], ast.Name) else None
+    cbname = calls[0].args[1].id if calls and len(calls[0].args) > 1 and isinstance(calls[0].args[1], ast.Name) else None
     cb = next((n for n in fn.body if isinstance(n, ast.FunctionDef) and n.name == cbname), None)
     if cb is not None:
         for r in [n for n in walk_no_nested(cb) if isinstance(n, ast.Return)]:
@@ -283,7 +287,7 @@ def run(ctx):
     ctx.ob('C12.parameter-is-leaf', 'Parameter', not C13.child_fields(model, pc),
            'Parameter has child fields; pruning at a Parameter would skip them', file=pc.file, line=pc.node.lineno)
     check_count(ctx)
-    ctx.sample({'collect': norm(_traversal_calls(g)[0]), 'fill': norm(_traversal_calls(f)[0])})
+    ctx.sample({'collect': [norm(c) for c in _traversal_calls(g)], 'fill': [norm(c) for c in _traversal_calls(f)]})
     for k in sorted(sub.constructs):
         if k.startswith('C13.visit-order'):
             ctx.sample({'order_obligation': k.split(':', 1)[1]}, limit=12)
